@@ -219,3 +219,38 @@ def noncoherent_cost(rng, plain=False):
         if not coherent(_num(c), plain):
             return c
     return {"spe": 5, "dup": 0, "hgt": 1, "floss": 0, "sloss": 3}
+
+
+def clade_syntenies(rng, G_nested, nfam, ordered=False, p=0.6):
+    """Leaf syntenies in which families are confined to (random) clades: each family is gained at a chosen
+    node and carried by leaves on both sides of it, so internal gains and inheritance really occur."""
+    from rv.refmodel.trees import T
+
+    G = T(G_nested)
+    fams = families(nfam)
+    syn = {G.name[v]: [] for v in G.leaves()}
+    for f in fams:
+        v = rng.choice(G.nodes if rng.random() < 0.7 else G.internal() or G.nodes)
+        if not G.children[v]:
+            syn[G.name[v]].append(f)
+            continue
+        picked = []
+        kids = G.children[v]
+        for c in rng.sample(kids, 2):
+            picked.append(rng.choice(G.leaves(c)))
+        for l in G.leaves(v):
+            if l not in picked and rng.random() < p:
+                picked.append(l)
+        for l in picked:
+            syn[G.name[l]].append(f)
+    base = fams[0]
+    for k in syn:
+        if not syn[k]:
+            syn[k].append(base)
+        syn[k] = sorted(set(syn[k]), key=fams.index)
+    if ordered:
+        hidden = list(fams)
+        rng.shuffle(hidden)
+        for k in syn:
+            syn[k].sort(key=hidden.index)
+    return syn
